@@ -78,7 +78,8 @@ func (in *interp) invoke(f *Closure, args []Value) Value {
 			return in.retVal
 		}
 		if sig != sigNone {
-			in.unspecified("break/continue escaping a function body")
+			// a break/continue that no loop of this activation encloses is as stray as one at top level
+			in.fail(EStray, in.ctlLine, in.ctlWord)
 		}
 	}
 	return NilV()
